@@ -1,28 +1,50 @@
 (** C16 – tabs are expanded before reaching the terminal.
     Transcribes  TabExpandedString::{new, expanded, set_tab_width}   (/repo/src/state.rs:361-410),
-                 BarState::{set_tab_width, set_style}                (src/state.rs:131-141),
-                 the message-replacing arms of finish_using_style    (src/state.rs:55, 65),
-                 ProgressBar::{with_tab_width, with_prefix, with_message, set_style, set_tab_width,
-                               set_prefix, set_message, message, prefix, style}
-                                                                    (src/progress_bar.rs:84-120, 162-171, 317-331, 629-636),
-                 ProgressStyle::{with_template, new, template, with_key, set_tab_width}
-                                                                    (src/style.rs:85-108, 161-172),
-                 Template::set_tab_width                             (src/style.rs:641-647),
+                 BarState::{finish_using_style, set_tab_width, set_style, tick, println, draw}
+                                                                    (src/state.rs:43-72, 131-146, 159-184, 200-223),
+                 ProgressBar::{style, with_style, with_tab_width, with_prefix, with_message, with_finish,
+                               set_style, set_tab_width, tick, println, set_prefix, set_message,
+                               finish_with_message, abandon_with_message, finish_using_style, message, prefix}
+                                                                    (src/progress_bar.rs:84-120, 145-148, 162-171,
+                                                                     231-240, 281-283, 327-341, 381-422, 646-653),
+                 ProgressStyle::{with_template, set_tab_width, new, tick_chars, tick_strings, progress_chars,
+                                 with_key, template, current_tick_str, format_bar (its output shape)}
+                                                                    (src/style.rs:85-232),
+                 ProgressStyle::{format_state, push_line}            (src/style.rs:234-426)  - EVERY arm,
                  TabRewriter                                         (src/style.rs:428-435),
-                 the Literal / msg / prefix / custom-key / NewLine arms of format_state and push_line
-                                                                    (src/style.rs:234-426).
-    Line numbers refer to /repo at commit 96a75c4.
+                 WideElement::expand                                 (src/style.rs:443-483),
+                 Template::set_tab_width                             (src/style.rs:641-647),
+                 BarDisplay / RepeatedStringDisplay                  (src/style.rs:691-723),
+                 PaddedStringDisplay::fmt                            (src/style.rs:734-769).
+    Line numbers refer to /repo at commit 8b11f76.
+
     The OnceLock cache of a TabExpandedString is explicit ([option text]); reading it through a
     shared reference fills it, so rendering and the getters return an updated state.
-    Strings are lists of code points.  Definitions only; proofs in proofs/TabsProofs.v. *)
+    Strings are lists of code points.
+
+    What the crate computes from things this model does not contain comes in through [env]
+    (universally quantified in every theorem): the column width of a string
+    (console::measure_text_width), the width of the draw target, the text of the numeric /
+    time built-in keys (pos, len, percent, bytes, elapsed, eta, per_sec, ... : C11/C15's subject)
+    and the geometry of a bar (how many filled / current / background cells: C13's subject).
+    Everything else of format_state - which text goes where, padding, truncation, styling,
+    the wide element, line splitting, the tick string and the progress characters a bar is
+    made of - is transcribed.
+    Definitions only; proofs in proofs/TabsProofs.v. *)
 From IndModel Require Export Base.
+From IndModel Require Padded.
 From IndGen Require Import Constants.
 Open Scope N_scope.
 
 Definition text := list N.
+Definition NUL : N := 0.
 Definition TAB : N := 9.
 Definition NL : N := 10.
+Definition CR : N := 13.
 Definition SPACE : N := 32.
+
+(** "contains no TAB": the predicate of the property *)
+Definition notab (s : text) : Prop := ~ In TAB s.
 
 (* str::contains('\t') *)
 Definition has_tab (s : text) : bool := existsb (N.eqb TAB) s.
@@ -31,6 +53,9 @@ Definition tab_spaces (w : N) : text := N.iter w (cons SPACE) [].
 (* str::replace('\t', &" ".repeat(w)) *)
 Definition expand (s : text) (w : N) : text :=
   flat_map (fun c => if c =? TAB then tab_spaces w else [c]) s.
+(* number of TABs of a text (used by the length law of [expand]) *)
+Fixpoint ntabs (s : text) : nat :=
+  match s with [] => 0%nat | c :: r => ((if N.eqb c TAB then 1 else 0) + ntabs r)%nat end.
 
 (** TabExpandedString, state.rs:361-368 *)
 Inductive tes :=
@@ -56,18 +81,100 @@ Definition tes_set_tw (t : tes) (n : N) : tes :=
   | WithTabs o c w => if w =? n then t else WithTabs o None n
   end.
 
-(** Templates.  [tpl] is a parsed template part (the parser itself is C10's subject; the
-    harness builds the template text and this list together); [part] is the same with the
-    literal turned into a TabExpandedString as Template::from_str does, at DEFAULT_TAB_WIDTH
-    (style.rs:499-502, 527-530, 584-586, 628-631, 637-639).  [TOpaque] stands for a built-in key
-    whose text this model does not compute (wide_bar, pos, len of the default template). *)
-Inductive tpl := TLit (s : text) | TMsg | TPrefix | TKey (k : N) | TNewLine | TOpaque.
-Inductive part := PLit (t : tes) | PMsg | PPrefix | PKey (k : N) | PNewLine | POpaque.
+(** ------------------------------------------------------------------ the environment *)
+Record env := mkenv {
+  e_cols : text -> N;                    (* console::measure_text_width *)
+  e_termw : N -> N;                      (* width of the draw target at the d-th rendering *)
+  e_num : N -> N -> option N -> text;    (* d-th rendering, built-in key number (position in
+                                            Constants.FORMAT_KEYS), the placeholder's width
+                                            (per_sec uses it as a precision): the text the key writes *)
+  e_geom : N -> N -> N * option N * N    (* d-th rendering, number of cells of the bar:
+                                            (filled cells, index of the "current" progress
+                                             character if any, background cells), style.rs:193-220 *)
+}.
+
+(** ------------------------------------------------------------------ PaddedStringDisplay
+    style.rs:734-769 on code points; the byte arithmetic ([trunc_range], [pad_split], [nbytes])
+    is shared with C12's model.  `self.str.len() - excess` cannot underflow when no character
+    has more columns than bytes (C12, C14); where it would, this function returns the text
+    unchanged, which is what a build without overflow checks does (the wrapped offset makes
+    `get` answer None); with overflow checks the draw panics and nothing is painted. *)
+Definition blen (s : text) : N := fold_right (fun c a => Padded.nbytes c + a) 0 s.
+
+Fixpoint drop_bytes (s : text) (n : N) {struct s} : option text :=
+  if n =? 0 then Some s else
+  match s with
+  | [] => None
+  | c :: r => if n <? Padded.nbytes c then None else drop_bytes r (n - Padded.nbytes c)
+  end.
+Fixpoint take_bytes (s : text) (n : N) {struct s} : option text :=
+  if n =? 0 then Some [] else
+  match s with
+  | [] => None
+  | c :: r => if n <? Padded.nbytes c then None
+              else match take_bytes r (n - Padded.nbytes c) with Some t => Some (c :: t) | None => None end
+  end.
+(* str::get(st..en) *)
+Definition str_get (s : text) (st en : N) : option text :=
+  if en <? st then None else
+  match drop_bytes s st with
+  | None => None
+  | Some r => take_bytes r (en - st)
+  end.
+
+Definition pad_text (cols : text -> N) (s : text) (width : N) (a : Padded.align) (truncate : bool) : text :=
+  let c := cols s in                                   (* :736 *)
+  let excess := c - width in                           (* :737 saturating_sub *)
+  if (0 <? excess) && negb truncate then s             (* :738-739 *)
+  else if 0 <? excess then                             (* :740 *)
+    match Padded.trunc_range a (blen s) excess with
+    | None => s
+    | Some (st, en) => match str_get s st en with Some t => t | None => s end   (* :750 *)
+    end
+  else
+    let diff := width - c in                           (* :753 *)
+    let '(l, r) := Padded.pad_split a diff in
+    tab_spaces l ++ s ++ tab_spaces r.                 (* :760-767 *)
+
+(* str::trim_end (char::is_whitespace = Unicode White_Space, TAB included) *)
+Definition trim_end (s : text) : text :=
+  fold_right (fun c acc => match acc with
+                           | [] => if Padded.is_ws c then [] else [c]
+                           | _ => c :: acc
+                           end) [] s.
+
+(** console::Style as it is rendered: `style.apply_to(x)` writes the escape sequences of the
+    colours/attributes, x, and the reset sequence (nothing but x when colours are disabled or
+    the style is empty).  The two sequences are data (supplied by whoever builds the template). *)
+Record sty := mksty { y_pre : text; y_post : text }.
+Definition wrap (o : option sty) (x : text) : text :=
+  match o with Some y => y_pre y ++ x ++ y_post y | None => x end.
+
+(** ------------------------------------------------------------------ templates
+    [tpl] is a parsed template part (the parser itself is C10's subject; the harness builds the
+    template text and this list together); [part] is the same with the literal turned into a
+    TabExpandedString as Template::from_str does, at DEFAULT_TAB_WIDTH (style.rs:499-502,
+    527-530, 584-586, 628-631, 637-639).
+    [KNum id]: any built-in key other than the six named ones.  [KCustom k]: a key looked up in
+    the style's format_map (a custom key named like a built-in one shadows it, style.rs:257: such
+    a placeholder is a [KCustom]); not registered: writes nothing (style.rs:361). *)
+Inductive key := KMsg | KPrefix | KWideMsg | KWideBar | KBar | KSpinner | KNum (id : N) | KCustom (k : N).
+Record ph := mkph { p_key : key; p_align : Padded.align; p_width : option N; p_trunc : bool;
+                    p_style : option sty; p_alt : option sty }.
+Inductive tpl := TLit (s : text) | TNewLine | TPh (h : ph).
+Inductive part := PLit (t : tes) | PNewLine | PPh (h : ph).
+
+(* {key} without width, alignment, truncation or style *)
+Definition bare (k : key) : ph := mkph k Padded.ALeft None false None None.
+Definition TMsg : tpl := TPh (bare KMsg).
+Definition TPrefix : tpl := TPh (bare KPrefix).
+Definition TKey (k : N) : tpl := TPh (bare (KCustom k)).
 
 Definition part_of_tpl (p : tpl) : part :=
   match p with
   | TLit s => PLit (tes_new s DEFAULT_TAB_WIDTH)
-  | TMsg => PMsg | TPrefix => PPrefix | TKey k => PKey k | TNewLine => PNewLine | TOpaque => POpaque
+  | TNewLine => PNewLine
+  | TPh h => PPh h
   end.
 
 (* format_map: custom key id -> the chunks its tracker passes to write_str *)
@@ -78,43 +185,85 @@ Fixpoint key_lookup (k : N) (m : keymap) : option (list text) :=
   | (k', c) :: r => if k =? k' then Some c else key_lookup k r
   end.
 
-Record style := mkstyle { s_tw : N; s_keys : keymap; s_parts : list part }.
+(** tick strings, progress characters (grapheme clusters) and their common column width
+    (`char_width`), style.rs:25-29; stored as given (style.rs:114-158) *)
+Record glyphs := mkglyphs { g_ticks : list text; g_pchars : list text; g_cw : N }.
+(* ProgressStyle::new, style.rs:94-108 *)
+Definition default_glyphs : glyphs :=
+  mkglyphs (map (fun c => [c]) DEFAULT_TICK_CHARS) (map (fun c => [c]) DEFAULT_PROGRESS_CHARS) 1.
 
-(* ProgressStyle::with_template + with_key…: style.rs:85-87, 94-108, 161-164 *)
-Definition style_new (keys : keymap) (t : list tpl) : style :=
-  mkstyle DEFAULT_TAB_WIDTH keys (map part_of_tpl t).
-(* ProgressStyle::template: style.rs:169-172 (tab_width and format_map are kept) *)
+Record style := mkstyle { s_tw : N; s_keys : keymap; s_parts : list part; s_gl : glyphs }.
+
+(* ProgressStyle::with_template + tick_*/progress_chars + with_key…: style.rs:85-87, 94-164 *)
+Definition style_new (keys : keymap) (g : glyphs) (t : list tpl) : style :=
+  mkstyle DEFAULT_TAB_WIDTH keys (map part_of_tpl t) g.
+(* ProgressStyle::template: style.rs:169-172 (tab_width, format_map, tick strings, progress chars are kept) *)
 Definition style_template (st : style) (t : list tpl) : style :=
-  mkstyle (s_tw st) (s_keys st) (map part_of_tpl t).
+  mkstyle (s_tw st) (s_keys st) (map part_of_tpl t) (s_gl st).
 (* ProgressStyle::set_tab_width style.rs:89-92, Template::set_tab_width style.rs:641-647 *)
 Definition part_set_tw (n : N) (p : part) : part :=
   match p with PLit t => PLit (tes_set_tw t n) | _ => p end.
 Definition style_set_tw (st : style) (n : N) : style :=
-  mkstyle n (s_keys st) (map (part_set_tw n) (s_parts st)).
+  mkstyle n (s_keys st) (map (part_set_tw n) (s_parts st)) (s_gl st).
 
+(* positions of "pos" and "len" in Constants.FORMAT_KEYS *)
+Definition KEY_POS : N := 6.
+Definition KEY_LEN : N := 8.
 (* ProgressStyle::default_bar(): "{wide_bar} {pos}/{len}" (style.rs:73-75) *)
-Definition default_tpl : list tpl := [TOpaque; TLit [32]; TOpaque; TLit [47]; TOpaque].
+Definition default_tpl : list tpl :=
+  [TPh (bare KWideBar); TLit [32]; TPh (bare (KNum KEY_POS)); TLit [47]; TPh (bare (KNum KEY_LEN))].
+
+(** ProgressFinish (state.rs:624-644) and Status (state.rs) *)
+Inductive finish := FAndLeave | FWithMessage (s : text) | FAndClear | FAbandon | FAbandonWithMessage (s : text).
+Inductive status := InProgress | DoneVisible | DoneHidden.
 
 (** BarState (the fields that matter here) plus a style clone held by the caller
-    ([b_saved], `let saved = pb.style()`). *)
-Record bar := mkbar { b_tw : N; b_msg : tes; b_prefix : tes; b_style : style; b_saved : option style }.
+    ([b_saved], `let saved = pb.style()`) and the number of renderings so far ([b_draws], ghost:
+    the index under which the environment is consulted). *)
+Record bar := mkbar { b_tw : N; b_msg : tes; b_prefix : tes; b_style : style; b_saved : option style;
+                      b_tick : N; b_status : status; b_onfin : finish; b_draws : N }.
 
-(* BarState::new state.rs:27-39, ProgressState::new state.rs:262-274 *)
+(* BarState::new state.rs:27-39 (on_finish: ProgressFinish::default() = AndClear),
+   ProgressState::new state.rs:262-274 *)
 Definition bar_init : bar :=
-  mkbar DEFAULT_TAB_WIDTH (NoTabs []) (NoTabs []) (style_new [] default_tpl) None.
+  mkbar DEFAULT_TAB_WIDTH (NoTabs []) (NoTabs []) (style_new [] default_glyphs default_tpl) None
+        0 InProgress FAndClear 0.
 
 (* BarState::set_tab_width, state.rs:131-136 *)
 Definition bar_set_tw (b : bar) (n : N) : bar :=
-  mkbar n (tes_set_tw (b_msg b) n) (tes_set_tw (b_prefix b) n) (style_set_tw (b_style b) n) (b_saved b).
+  mkbar n (tes_set_tw (b_msg b) n) (tes_set_tw (b_prefix b) n) (style_set_tw (b_style b) n) (b_saved b)
+        (b_tick b) (b_status b) (b_onfin b) (b_draws b).
 (* BarState::set_style, state.rs:138-141 *)
 Definition bar_set_style (b : bar) (st : style) : bar :=
-  mkbar (b_tw b) (b_msg b) (b_prefix b) (style_set_tw st (b_tw b)) (b_saved b).
+  mkbar (b_tw b) (b_msg b) (b_prefix b) (style_set_tw st (b_tw b)) (b_saved b)
+        (b_tick b) (b_status b) (b_onfin b) (b_draws b).
 Definition bar_set_msg (b : bar) (s : text) : bar :=     (* TabExpandedString::new(msg, self.tab_width) *)
-  mkbar (b_tw b) (tes_new s (b_tw b)) (b_prefix b) (b_style b) (b_saved b).
+  mkbar (b_tw b) (tes_new s (b_tw b)) (b_prefix b) (b_style b) (b_saved b)
+        (b_tick b) (b_status b) (b_onfin b) (b_draws b).
 Definition bar_set_prefix (b : bar) (s : text) : bar :=
-  mkbar (b_tw b) (b_msg b) (tes_new s (b_tw b)) (b_style b) (b_saved b).
+  mkbar (b_tw b) (b_msg b) (tes_new s (b_tw b)) (b_style b) (b_saved b)
+        (b_tick b) (b_status b) (b_onfin b) (b_draws b).
+Definition bar_set_status (b : bar) (x : status) : bar :=
+  mkbar (b_tw b) (b_msg b) (b_prefix b) (b_style b) (b_saved b) (b_tick b) x (b_onfin b) (b_draws b).
+Definition bar_set_onfin (b : bar) (f : finish) : bar :=
+  mkbar (b_tw b) (b_msg b) (b_prefix b) (b_style b) (b_saved b) (b_tick b) (b_status b) f (b_draws b).
+Definition bar_set_saved (b : bar) (sv : option style) : bar :=
+  mkbar (b_tw b) (b_msg b) (b_prefix b) (b_style b) sv (b_tick b) (b_status b) (b_onfin b) (b_draws b).
+(* BarState::tick, state.rs:143-146 *)
+Definition bar_tick (b : bar) : bar :=
+  mkbar (b_tw b) (b_msg b) (b_prefix b) (b_style b) (b_saved b) (sat_add64 (b_tick b) 1) (b_status b)
+        (b_onfin b) (b_draws b).
+(* BarState::finish_using_style without its draw, state.rs:43-67; pos/len are not in this model *)
+Definition status_of_finish (f : finish) : status :=
+  match f with FAndClear => DoneHidden | _ => DoneVisible end.
+Definition bar_finish (b : bar) (f : finish) : bar :=
+  let b1 := bar_set_status b (status_of_finish f) in
+  match f with
+  | FWithMessage s | FAbandonWithMessage s => bar_set_msg b1 s
+  | _ => b1
+  end.
 
-(** format_state / push_line restricted to the parts above *)
+(** ------------------------------------------------------------------ format_state *)
 (* str::split('\n') *)
 Fixpoint split_nl (s : text) : list text :=
   match s with
@@ -132,159 +281,310 @@ Definition chunks_text (w : N) (chunks : list text) : text := concat (map (fun c
 Definition key_text (w : N) (m : keymap) (k : N) : text :=
   match key_lookup k m with Some c => chunks_text w c | None => [] end.
 
-Record fmt := mkfmt { f_msg : tes; f_prefix : tes; f_cur : text; f_lines : list text; f_opaque : bool }.
+(* what a rendering reads besides the two TabExpandedStrings *)
+Record rctx := mkrctx { c_env : env; c_d : N; c_tw : N; c_keys : keymap; c_gl : glyphs;
+                        c_tick : N; c_fin : bool }.
 
-(* push_line, style.rs:399-425 (wide = None): every '\n'-separated piece becomes a bar line *)
-Definition push_line (f : fmt) : fmt :=
-  mkfmt (f_msg f) (f_prefix f) [] (f_lines f ++ split_nl (f_cur f)) (f_opaque f).
+Definition rep (x : text) (n : N) : text := N.iter n (app x) [].
 
-Definition fmt_part (tw : N) (keys : keymap) (f : fmt) (p : part) : fmt * part :=
+(* BarDisplay::fmt, style.rs:698-708, for the geometry [geo]; `rest` is always a StyledObject
+   (`alt_style.unwrap_or(&Style::new())`, :230) *)
+Definition bar_text (g : glyphs) (geo : N * option N * N) (alt : option sty) : text :=
+  let '(filled, cur, bg) := geo in
+  rep (nth 0 (g_pchars g) []) filled
+  ++ match cur with Some i => nth (N.to_nat i) (g_pchars g) [] | None => [] end
+  ++ wrap alt (rep (last (g_pchars g) []) bg).
+(* ProgressStyle::format_bar, style.rs:191-232: `width / self.char_width` cells *)
+Definition format_bar (c : rctx) (width : N) (alt : option sty) : text :=
+  bar_text (c_gl c) (e_geom (c_env c) (c_d c) (width / g_cw (c_gl c))) alt.
+
+(* current_tick_str, style.rs:174-189 *)
+Definition tick_text (g : glyphs) (tick : N) (fin : bool) : text :=
+  let n := N.of_nat (length (g_ticks g)) in
+  if fin then last (g_ticks g) [] else nth (N.to_nat (tick mod (n - 1))) (g_ticks g) [].
+
+Inductive wide := WNone | WBar (alt : option sty) | WMsg (a : Padded.align).
+
+(* `buf` for the keys that do not read a TabExpandedString, style.rs:257-361 *)
+Definition static_buf (c : rctx) (h : ph) : text :=
+  match p_key h with
+  | KCustom k => key_text (c_tw c) (c_keys c) k                                          (* :257-258 *)
+  | KWideBar | KWideMsg => [NUL]                                                         (* :261-264, 276-279 *)
+  | KBar => format_bar c (match p_width h with Some w => w | None => DEFAULT_BAR_WIDTH end) (p_alt h)  (* :265-274 *)
+  | KSpinner => tick_text (c_gl c) (c_tick c) (c_fin c)                                  (* :275 *)
+  | KNum id => e_num (c_env c) (c_d c) id (p_width h)                                    (* :282-360 *)
+  | KMsg | KPrefix => []                                                                 (* see fmt_part *)
+  end.
+Definition wide_of (h : ph) (w : wide) : wide :=
+  match p_key h with
+  | KWideBar => WBar (p_alt h)
+  | KWideMsg => WMsg (p_align h)
+  | _ => w
+  end.
+(* what is appended to `cur` for a placeholder whose `buf` is [buf], style.rs:365-384 *)
+Definition ph_post (c : rctx) (h : ph) (buf : text) : text :=
+  wrap (p_style h)
+       (match p_width h with
+        | Some w => pad_text (e_cols (c_env c)) buf w (p_align h) (p_trunc h)
+        | None => buf
+        end).
+
+(** WideElement::expand, style.rs:443-483 *)
+Definition remove_nul (s : text) : text := filter (fun c => negb (c =? NUL)) s.
+Definition replace_nul (s x : text) : text := flat_map (fun c => if c =? NUL then x else [c]) s.
+Definition ends_nul (s : text) : bool := match rev s with c :: _ => c =? NUL | [] => false end.
+Definition wide_left (c : rctx) (cur : text) : N :=                                       (* :452 *)
+  e_termw (c_env c) (c_d c) - e_cols (c_env c) (remove_nul cur).
+Definition wide_bar_line (c : rctx) (alt : option sty) (cur : text) : text :=             (* :454-460 *)
+  replace_nul cur (format_bar c (wide_left c cur) alt).
+Definition wide_msg_line (c : rctx) (a : Padded.align) (emsg cur : text) : text :=        (* :461-480 *)
+  let buf := pad_text (e_cols (c_env c)) emsg (wide_left c cur) a true in
+  replace_nul cur (if ends_nul cur then trim_end buf else buf).
+
+Record fmt := mkfmt { f_msg : tes; f_prefix : tes; f_cur : text; f_lines : list text; f_wide : wide }.
+
+(* push_line, style.rs:399-425: the wide element (if one was met so far) is expanded, then every
+   '\n'-separated piece becomes a bar line *)
+Definition push_line (c : rctx) (f : fmt) : fmt :=
+  match f_wide f with
+  | WNone => mkfmt (f_msg f) (f_prefix f) [] (f_lines f ++ split_nl (f_cur f)) (f_wide f)
+  | WBar alt =>
+      mkfmt (f_msg f) (f_prefix f) [] (f_lines f ++ split_nl (wide_bar_line c alt (f_cur f))) (f_wide f)
+  | WMsg a =>
+      let '(e, m') := tes_expanded (f_msg f) in                                           (* :466 *)
+      mkfmt m' (f_prefix f) [] (f_lines f ++ split_nl (wide_msg_line c a e (f_cur f))) (f_wide f)
+  end.
+
+Definition fmt_part (c : rctx) (f : fmt) (p : part) : fmt * part :=
   match p with
   | PLit t =>                                                   (* style.rs:386 *)
       let '(e, t') := tes_expanded t in
-      (mkfmt (f_msg f) (f_prefix f) (f_cur f ++ e) (f_lines f) (f_opaque f), PLit t')
-  | PMsg =>                                                     (* :280, then :382 *)
-      let '(e, m') := tes_expanded (f_msg f) in
-      (mkfmt m' (f_prefix f) (f_cur f ++ e) (f_lines f) (f_opaque f), p)
-  | PPrefix =>                                                  (* :281 *)
-      let '(e, m') := tes_expanded (f_prefix f) in
-      (mkfmt (f_msg f) m' (f_cur f ++ e) (f_lines f) (f_opaque f), p)
-  | PKey k =>                                                   (* :257-258 *)
-      (mkfmt (f_msg f) (f_prefix f) (f_cur f ++ key_text tw keys k) (f_lines f) (f_opaque f), p)
-  | PNewLine => (push_line f, p)                                (* :387-389 *)
-  | POpaque => (mkfmt (f_msg f) (f_prefix f) (f_cur f) (f_lines f) true, p)
+      (mkfmt (f_msg f) (f_prefix f) (f_cur f ++ e) (f_lines f) (f_wide f), PLit t')
+  | PNewLine => (push_line c f, p)                              (* :387-389 *)
+  | PPh h =>
+      match p_key h with
+      | KMsg =>                                                 (* :280, then :365-384 *)
+          let '(e, m') := tes_expanded (f_msg f) in
+          (mkfmt m' (f_prefix f) (f_cur f ++ ph_post c h e) (f_lines f) (f_wide f), p)
+      | KPrefix =>                                              (* :281 *)
+          let '(e, m') := tes_expanded (f_prefix f) in
+          (mkfmt (f_msg f) m' (f_cur f ++ ph_post c h e) (f_lines f) (f_wide f), p)
+      | _ =>
+          (mkfmt (f_msg f) (f_prefix f) (f_cur f ++ ph_post c h (static_buf c h)) (f_lines f)
+                 (wide_of h (f_wide f)), p)
+      end
   end.
 
-Fixpoint fmt_parts (tw : N) (keys : keymap) (f : fmt) (ps : list part) : fmt * list part :=
+Fixpoint fmt_parts (c : rctx) (f : fmt) (ps : list part) : fmt * list part :=
   match ps with
   | [] => (f, [])
-  | p :: r => let '(f1, p1) := fmt_part tw keys f p in
-              let '(f2, r2) := fmt_parts tw keys f1 r in
+  | p :: r => let '(f1, p1) := fmt_part c f p in
+              let '(f2, r2) := fmt_parts c f1 r in
               (f2, p1 :: r2)
   end.
 
-(** one draw: the bar lines handed to the terminal ([None]: the template contains an opaque
-    key, the model does not say what the lines are) and the state with the caches filled *)
-Definition format_state (b : bar) : bar * option (list text) :=
+Definition is_finished (x : status) : bool := match x with InProgress => false | _ => true end.
+
+(** one rendering: the bar lines handed to the draw state and the state with the caches filled *)
+Definition format_state (E : env) (b : bar) : bar * list text :=
   let st := b_style b in
-  let '(f, parts') := fmt_parts (s_tw st) (s_keys st) (mkfmt (b_msg b) (b_prefix b) [] [] false) (s_parts st) in
-  let f' := match f_cur f with [] => f | _ => push_line f end in     (* style.rs:393-395 *)
-  (mkbar (b_tw b) (f_msg f') (f_prefix f') (mkstyle (s_tw st) (s_keys st) parts') (b_saved b),
-   if f_opaque f' then None else Some (f_lines f')).
+  let c := mkrctx E (b_draws b) (s_tw st) (s_keys st) (s_gl st) (b_tick b) (is_finished (b_status b)) in
+  let '(f, parts') := fmt_parts c (mkfmt (b_msg b) (b_prefix b) [] [] WNone) (s_parts st) in
+  let f' := match f_cur f with [] => f | _ => push_line c f end in     (* style.rs:393-395 *)
+  (mkbar (b_tw b) (f_msg f') (f_prefix f') (mkstyle (s_tw st) (s_keys st) parts' (s_gl st)) (b_saved b)
+         (b_tick b) (b_status b) (b_onfin b) (b_draws b + 1),
+   f_lines f').
+
+(* BarState::draw / println, state.rs:175-180, 214-219: a bar that is DoneHidden renders nothing *)
+Definition render (E : env) (b : bar) : bar * list text :=
+  match b_status b with
+  | DoneHidden => (b, [])
+  | _ => format_state E b
+  end.
 
 (** public operations *)
 Inductive op :=
 | SetTabWidth (n : N)                 (* pb.set_tab_width(n): draws *)
 | WithTabWidth (n : N)                (* pb.with_tab_width(n): no draw *)
-| SetStyleNew (keys : keymap) (t : list tpl)   (* set_style / with_style (ProgressStyle::with_template(t).with_key(..)) *)
+| SetStyleNew (keys : keymap) (g : glyphs) (t : list tpl)
+                                      (* set_style / with_style (ProgressStyle::with_template(t)
+                                         [.tick_strings(..)] [.progress_chars(..)] .with_key(..)) *)
 | SetStyleDerived (t : list tpl)      (* set_style(pb.style().template(t)) *)
 | SaveStyle                           (* saved = pb.style() *)
 | RestoreStyle                        (* pb.set_style(saved.clone()) *)
 | SetMessage (s : text) | SetPrefix (s : text)                (* draw *)
 | WithMessage (s : text) | WithPrefix (s : text)              (* no draw *)
 | FinishWithMessage (s : text) | AbandonWithMessage (s : text) (* draw *)
+| WithFinish (f : finish)                                     (* pb.with_finish(f): no draw *)
+| FinishUsingStyle                                            (* pb.finish_using_style(); dropping an
+                                                                 unfinished bar takes the same path
+                                                                 (state.rs:226-240) *)
 | Tick                                                        (* draw *)
-| Println (s : text)                                          (* text line, then the bar lines *)
+| Println (s : text)                                          (* text lines, then the bar lines *)
 | GetMessage | GetPrefix.
 
-Inductive out := ODraw (lines : option (list text)) | OGot (s : text) | ONone.
+(** what a call produces: [ODraw txt lines] - the text lines (println only) and the BAR LINES
+    put into the draw state, which draw_to_term writes one by one; a getter's result; nothing *)
+Inductive out := ODraw (txt : list text) (lines : list text) | OGot (s : text) | ONone.
 
-Definition draw (b : bar) : bar * out :=
-  let '(b', l) := format_state b in (b', ODraw l).
+Definition draw (E : env) (b : bar) : bar * out :=
+  let '(b', l) := render E b in (b', ODraw [] l).
 
-Definition step (b : bar) (o : op) : bar * out :=
+(* str::lines(): split at '\n', a trailing empty piece is dropped, one trailing '\r' of every
+   piece is dropped *)
+Definition strip_cr (l : text) : text :=
+  match rev l with c :: r => if c =? CR then rev r else l | [] => l end.
+Definition str_lines (s : text) : list text :=
+  let ps := split_nl s in
+  map strip_cr (match rev ps with [] :: r => rev r | _ => ps end).
+(* BarState::println, state.rs:167-173: no line at all becomes one empty line *)
+Definition println_lines (s : text) : list text :=
+  match str_lines s with [] => [[]] | ls => ls end.
+
+Definition step (E : env) (b : bar) (o : op) : bar * out :=
   match o with
-  | SetTabWidth n => draw (bar_set_tw b n)                        (* progress_bar.rs:167-171 *)
+  | SetTabWidth n => draw E (bar_set_tw b n)                      (* progress_bar.rs:167-171 *)
   | WithTabWidth n => (bar_set_tw b n, ONone)                     (* :95-98 *)
-  | SetStyleNew keys t => (bar_set_style b (style_new keys t), ONone)   (* :162-164 / :90-93 *)
+  | SetStyleNew keys g t => (bar_set_style b (style_new keys g t), ONone)   (* :162-164 / :89-92 *)
   | SetStyleDerived t => (bar_set_style b (style_template (b_style b) t), ONone)
-  | SaveStyle => (mkbar (b_tw b) (b_msg b) (b_prefix b) (b_style b) (Some (b_style b)), ONone)  (* :85-87 clone *)
+  | SaveStyle => (bar_set_saved b (Some (b_style b)), ONone)      (* :84-86 clone *)
   | RestoreStyle => match b_saved b with
                     | Some st => (bar_set_style b st, ONone)
                     | None => (b, ONone)
                     end
-  | SetMessage s => draw (bar_set_msg b s)                        (* :327-331 *)
-  | SetPrefix s => draw (bar_set_prefix b s)                      (* :317-321 *)
+  | SetMessage s => draw E (bar_set_msg b s)                      (* :337-341 *)
+  | SetPrefix s => draw E (bar_set_prefix b s)                    (* :327-331 *)
   | WithMessage s => (bar_set_msg b s, ONone)                     (* :115-120 *)
   | WithPrefix s => (bar_set_prefix b s, ONone)                   (* :104-109 *)
-  | FinishWithMessage s => draw (bar_set_msg b s)                 (* state.rs:51-56, 71 *)
-  | AbandonWithMessage s => draw (bar_set_msg b s)                (* state.rs:64-66, 71 *)
-  | Tick => draw b                                                (* state.rs:143-146, 148-157 *)
-  | Println s =>                                                  (* state.rs:159-183 *)
-      let '(b', l) := format_state b in
-      (b', ODraw (match l with Some ls => Some (s :: ls) | None => None end))
-  | GetMessage => let '(e, m') := tes_expanded (b_msg b) in       (* progress_bar.rs:629-631 *)
-                  (mkbar (b_tw b) m' (b_prefix b) (b_style b) (b_saved b), OGot e)
-  | GetPrefix => let '(e, m') := tes_expanded (b_prefix b) in     (* :634-636 *)
-                 (mkbar (b_tw b) (b_msg b) m' (b_style b) (b_saved b), OGot e)
+  | FinishWithMessage s => draw E (bar_finish b (FWithMessage s))           (* :381-, state.rs:43-72 *)
+  | AbandonWithMessage s => draw E (bar_finish b (FAbandonWithMessage s))   (* :405- *)
+  | WithFinish f => (bar_set_onfin b f, ONone)                    (* :145-148 *)
+  | FinishUsingStyle => draw E (bar_finish b (b_onfin b))         (* :416-422 *)
+  | Tick => draw E (bar_tick b)                                   (* :231-240, state.rs:143-157 *)
+  | Println s =>                                                  (* state.rs:159-184 *)
+      let '(b', l) := render E b in (b', ODraw (println_lines s) l)
+  | GetMessage => let '(e, m') := tes_expanded (b_msg b) in       (* progress_bar.rs:646-648 *)
+                  (mkbar (b_tw b) m' (b_prefix b) (b_style b) (b_saved b)
+                         (b_tick b) (b_status b) (b_onfin b) (b_draws b), OGot e)
+  | GetPrefix => let '(e, m') := tes_expanded (b_prefix b) in     (* :651-653 *)
+                 (mkbar (b_tw b) (b_msg b) m' (b_style b) (b_saved b)
+                        (b_tick b) (b_status b) (b_onfin b) (b_draws b), OGot e)
   end.
 
-Fixpoint run (b : bar) (ops : list op) : bar * list out :=
+Fixpoint run (E : env) (b : bar) (ops : list op) : bar * list out :=
   match ops with
   | [] => (b, [])
-  | o :: r => let '(b1, x) := step b o in
-              let '(b2, xs) := run b1 r in
+  | o :: r => let '(b1, x) := step E b o in
+              let '(b2, xs) := run E b1 r in
               (b2, x :: xs)
   end.
 
 (** ---------------------------------------------------------------- reference (no caches)
     The specification: texts are stored as given, everything is expanded from the originals
-    with the CURRENT tab width whenever it is looked at.  "Last call wins" for every setting. *)
+    with the CURRENT tab width whenever it is looked at.  "Last call wins" for every setting.
+    The layout of a line (padding, truncation, styling, wide element, tick string, bar) is the
+    same functions as above applied to those expansions. *)
 Record rbar := mkrbar { r_tw : N; r_msg : text; r_prefix : text;
-                        r_keys : keymap; r_tpl : list tpl; r_saved : option (keymap * list tpl) }.
+                        r_keys : keymap; r_gl : glyphs; r_tpl : list tpl;
+                        r_saved : option (keymap * glyphs * list tpl);
+                        r_tick : N; r_status : status; r_onfin : finish; r_draws : N }.
 
-Definition rbar_init : rbar := mkrbar DEFAULT_TAB_WIDTH [] [] [] default_tpl None.
+Definition rbar_init : rbar :=
+  mkrbar DEFAULT_TAB_WIDTH [] [] [] default_glyphs default_tpl None 0 InProgress FAndClear 0.
 
-Fixpoint ref_fmt (r : rbar) (ps : list tpl) (cur : text) (lines : list text) (opq : bool)
-  : text * list text * bool :=
+Definition ref_push (c : rctx) (emsg cur : text) (lines : list text) (w : wide) : list text :=
+  lines ++ split_nl (match w with
+                     | WNone => cur
+                     | WBar alt => wide_bar_line c alt cur
+                     | WMsg a => wide_msg_line c a emsg cur
+                     end).
+
+(* [emsg], [epre]: message and prefix expanded from their originals with the current width *)
+Fixpoint ref_fmt (c : rctx) (emsg epre : text) (ps : list tpl) (cur : text) (lines : list text) (w : wide)
+  : text * list text * wide :=
   match ps with
-  | [] => (cur, lines, opq)
+  | [] => (cur, lines, w)
   | p :: rest =>
       match p with
-      | TLit s => ref_fmt r rest (cur ++ expand s (r_tw r)) lines opq
-      | TMsg => ref_fmt r rest (cur ++ expand (r_msg r) (r_tw r)) lines opq
-      | TPrefix => ref_fmt r rest (cur ++ expand (r_prefix r) (r_tw r)) lines opq
-      | TKey k => ref_fmt r rest (cur ++ key_text (r_tw r) (r_keys r) k) lines opq
-      | TNewLine => ref_fmt r rest [] (lines ++ split_nl cur) opq
-      | TOpaque => ref_fmt r rest cur lines true
+      | TLit s => ref_fmt c emsg epre rest (cur ++ expand s (c_tw c)) lines w
+      | TNewLine => ref_fmt c emsg epre rest [] (ref_push c emsg cur lines w) w
+      | TPh h =>
+          let buf := match p_key h with KMsg => emsg | KPrefix => epre | _ => static_buf c h end in
+          ref_fmt c emsg epre rest (cur ++ ph_post c h buf) lines (wide_of h w)
       end
   end.
 
-Definition ref_render (r : rbar) : option (list text) :=
-  let '(cur, lines, opq) := ref_fmt r (r_tpl r) [] [] false in
-  let lines' := match cur with [] => lines | _ => lines ++ split_nl cur end in
-  if opq then None else Some lines'.
+Definition ref_ctx (E : env) (r : rbar) : rctx :=
+  mkrctx E (r_draws r) (r_tw r) (r_keys r) (r_gl r) (r_tick r) (is_finished (r_status r)).
 
-Definition ref_step (r : rbar) (o : op) : rbar * out :=
-  let upd_tw n := mkrbar n (r_msg r) (r_prefix r) (r_keys r) (r_tpl r) (r_saved r) in
-  let upd_msg s := mkrbar (r_tw r) s (r_prefix r) (r_keys r) (r_tpl r) (r_saved r) in
-  let upd_prefix s := mkrbar (r_tw r) (r_msg r) s (r_keys r) (r_tpl r) (r_saved r) in
-  let drawn r' := (r', ODraw (ref_render r')) in
+(* the bar lines of a rendering of [r] *)
+Definition ref_lines (E : env) (r : rbar) : list text :=
+  let c := ref_ctx E r in
+  let emsg := expand (r_msg r) (r_tw r) in
+  let '(cur, lines, w) := ref_fmt c emsg (expand (r_prefix r) (r_tw r)) (r_tpl r) [] [] WNone in
+  match cur with [] => lines | _ => ref_push c emsg cur lines w end.
+
+Definition ref_render (E : env) (r : rbar) : rbar * list text :=
+  match r_status r with
+  | DoneHidden => (r, [])
+  | _ => (mkrbar (r_tw r) (r_msg r) (r_prefix r) (r_keys r) (r_gl r) (r_tpl r) (r_saved r)
+                 (r_tick r) (r_status r) (r_onfin r) (r_draws r + 1),
+          ref_lines E r)
+  end.
+
+(* the message a finish behaviour installs ([d]: the message so far) *)
+Definition finish_msg (f : finish) (d : text) : text :=
+  match f with FWithMessage s | FAbandonWithMessage s => s | _ => d end.
+Definition rbar_tick (r : rbar) : rbar :=
+  mkrbar (r_tw r) (r_msg r) (r_prefix r) (r_keys r) (r_gl r) (r_tpl r) (r_saved r)
+         (sat_add64 (r_tick r) 1) (r_status r) (r_onfin r) (r_draws r).
+Definition rbar_finish (r : rbar) (f : finish) : rbar :=
+  mkrbar (r_tw r)
+         (finish_msg f (r_msg r))
+         (r_prefix r) (r_keys r) (r_gl r) (r_tpl r) (r_saved r) (r_tick r) (status_of_finish f)
+         (r_onfin r) (r_draws r).
+
+Definition ref_step (E : env) (r : rbar) (o : op) : rbar * out :=
+  let upd_tw n := mkrbar n (r_msg r) (r_prefix r) (r_keys r) (r_gl r) (r_tpl r) (r_saved r)
+                         (r_tick r) (r_status r) (r_onfin r) (r_draws r) in
+  let upd_msg s := mkrbar (r_tw r) s (r_prefix r) (r_keys r) (r_gl r) (r_tpl r) (r_saved r)
+                          (r_tick r) (r_status r) (r_onfin r) (r_draws r) in
+  let upd_prefix s := mkrbar (r_tw r) (r_msg r) s (r_keys r) (r_gl r) (r_tpl r) (r_saved r)
+                             (r_tick r) (r_status r) (r_onfin r) (r_draws r) in
+  let upd_style k g t := mkrbar (r_tw r) (r_msg r) (r_prefix r) k g t (r_saved r)
+                                (r_tick r) (r_status r) (r_onfin r) (r_draws r) in
+  let drawn r' := let '(r'', l) := ref_render E r' in (r'', ODraw [] l) in
   match o with
   | SetTabWidth n => drawn (upd_tw n)
   | WithTabWidth n => (upd_tw n, ONone)
-  | SetStyleNew keys t => (mkrbar (r_tw r) (r_msg r) (r_prefix r) keys t (r_saved r), ONone)
-  | SetStyleDerived t => (mkrbar (r_tw r) (r_msg r) (r_prefix r) (r_keys r) t (r_saved r), ONone)
-  | SaveStyle => (mkrbar (r_tw r) (r_msg r) (r_prefix r) (r_keys r) (r_tpl r) (Some (r_keys r, r_tpl r)), ONone)
+  | SetStyleNew keys g t => (upd_style keys g t, ONone)
+  | SetStyleDerived t => (upd_style (r_keys r) (r_gl r) t, ONone)
+  | SaveStyle => (mkrbar (r_tw r) (r_msg r) (r_prefix r) (r_keys r) (r_gl r) (r_tpl r)
+                         (Some (r_keys r, r_gl r, r_tpl r)) (r_tick r) (r_status r) (r_onfin r) (r_draws r), ONone)
   | RestoreStyle => match r_saved r with
-                    | Some (k, t) => (mkrbar (r_tw r) (r_msg r) (r_prefix r) k t (r_saved r), ONone)
+                    | Some (k, g, t) => (upd_style k g t, ONone)
                     | None => (r, ONone)
                     end
-  | SetMessage s | FinishWithMessage s | AbandonWithMessage s => drawn (upd_msg s)
+  | SetMessage s => drawn (upd_msg s)
   | SetPrefix s => drawn (upd_prefix s)
   | WithMessage s => (upd_msg s, ONone)
   | WithPrefix s => (upd_prefix s, ONone)
-  | Tick => drawn r
-  | Println s => (r, ODraw (match ref_render r with Some ls => Some (s :: ls) | None => None end))
+  | FinishWithMessage s => drawn (rbar_finish r (FWithMessage s))
+  | AbandonWithMessage s => drawn (rbar_finish r (FAbandonWithMessage s))
+  | WithFinish f => (mkrbar (r_tw r) (r_msg r) (r_prefix r) (r_keys r) (r_gl r) (r_tpl r) (r_saved r)
+                            (r_tick r) (r_status r) f (r_draws r), ONone)
+  | FinishUsingStyle => drawn (rbar_finish r (r_onfin r))
+  | Tick => drawn (rbar_tick r)
+  | Println s => let '(r', l) := ref_render E r in (r', ODraw (println_lines s) l)
   | GetMessage => (r, OGot (expand (r_msg r) (r_tw r)))
   | GetPrefix => (r, OGot (expand (r_prefix r) (r_tw r)))
   end.
 
-Fixpoint ref_run (r : rbar) (ops : list op) : rbar * list out :=
+Fixpoint ref_run (E : env) (r : rbar) (ops : list op) : rbar * list out :=
   match ops with
   | [] => (r, [])
-  | o :: rest => let '(r1, x) := ref_step r o in
-                 let '(r2, xs) := ref_run r1 rest in
+  | o :: rest => let '(r1, x) := ref_step E r o in
+                 let '(r2, xs) := ref_run E r1 rest in
                  (r2, x :: xs)
   end.
 
@@ -295,11 +595,14 @@ Fixpoint last_tw (d : N) (ops : list op) : N :=
   | (SetTabWidth n | WithTabWidth n) :: r => last_tw n r
   | _ :: r => last_tw d r
   end.
-Fixpoint last_msg (d : text) (ops : list op) : text :=
+(* [f]: the finish behaviour stored so far (with_finish) *)
+Fixpoint last_msg (d : text) (f : finish) (ops : list op) : text :=
   match ops with
   | [] => d
-  | (SetMessage s | WithMessage s | FinishWithMessage s | AbandonWithMessage s) :: r => last_msg s r
-  | _ :: r => last_msg d r
+  | (SetMessage s | WithMessage s | FinishWithMessage s | AbandonWithMessage s) :: r => last_msg s f r
+  | WithFinish g :: r => last_msg d g r
+  | FinishUsingStyle :: r => last_msg (finish_msg f d) f r
+  | _ :: r => last_msg d f r
   end.
 Fixpoint last_prefix (d : text) (ops : list op) : text :=
   match ops with
@@ -308,18 +611,77 @@ Fixpoint last_prefix (d : text) (ops : list op) : text :=
   | _ :: r => last_prefix d r
   end.
 
+(** ---------------------------------------------------------------- vocabulary of the statements *)
+(* the cache invariant, stated on the implementation model alone *)
+Definition tes_ok (w : N) (t : tes) : Prop :=
+  match t with
+  | NoTabs s => has_tab s = false
+  | WithTabs o c tw => tw = w /\ (c = None \/ c = Some (expand o w))
+  end.
+Definition part_ok (w : N) (p : part) : Prop :=
+  match p with PLit t => tes_ok w t | _ => True end.
+Definition inv (b : bar) : Prop :=
+  tes_ok (b_tw b) (b_msg b) /\ tes_ok (b_tw b) (b_prefix b)
+  /\ s_tw (b_style b) = b_tw b /\ Forall (part_ok (b_tw b)) (s_parts (b_style b)).
+
+(* the BAR LINES of a draw (the text lines of println are not bar lines) and getter results *)
+Definition out_notab (x : out) : Prop :=
+  match x with
+  | ODraw _ ls => Forall notab ls
+  | OGot s => notab s
+  | ONone => True
+  end.
+
+(** the two things format_state copies verbatim: *)
+(* (1) tick strings and progress characters of a style; a style violating this is the class
+   'tab-in-tick-or-progress-chars' *)
+Definition glyphs_ok (g : glyphs) : Prop := Forall notab (g_ticks g) /\ Forall notab (g_pchars g).
+(* (2) the escape sequences console::Style writes around a styled placeholder *)
+Definition sty_ok (o : option sty) : Prop :=
+  match o with Some y => notab (y_pre y) /\ notab (y_post y) | None => True end.
+Definition tpl_ok (p : tpl) : Prop :=
+  match p with TPh h => sty_ok (p_style h) /\ sty_ok (p_alt h) | _ => True end.
+Definition op_ok (o : op) : Prop :=
+  match o with
+  | SetStyleNew _ g t => glyphs_ok g /\ Forall tpl_ok t
+  | SetStyleDerived t => Forall tpl_ok t
+  | _ => True
+  end.
+(* the numeric / time built-in keys write digits, punctuation, unit names: no TAB *)
+Definition env_ok (E : env) : Prop := forall d id w, notab (e_num E d id w).
+
 (** ------------------------------------------------------------------ correspondence *)
 Definition text_eqb : text -> text -> bool := list_eqb N.eqb.
 Definition out_eqb (m o : out) : bool :=
   match m, o with
-  | ODraw None, ODraw _ => true                         (* opaque template: lines not compared *)
-  | ODraw (Some l), ODraw (Some l') => list_eqb text_eqb l l'
+  | ODraw t l, ODraw t' l' => list_eqb text_eqb t t' && list_eqb text_eqb l l'
   | OGot s, OGot s' => text_eqb s s'
   | ONone, ONone => true
   | _, _ => false
   end.
 
-(* a history and what was observed after each operation *)
-Definition c16_check (c : list op * list out) : bool :=
-  let '(ops, obs) := c in
-  list_eqb out_eqb (snd (run bar_init ops)) obs.
+(** The environment of the harness's runs: a draw target of fixed width [W]; bars without a
+    length whose position stays 0, so the fraction is 0 and a bar consists of background cells
+    only (state.rs:286-295, style.rs:193-220) and the numeric keys are the constants [nums];
+    measure_text_width = sum of the characters' widths ([wt]: the characters whose width is
+    not 1) outside `ESC ... letter` sequences (the sequences console::Style writes). *)
+Fixpoint lookup_or {A} (k : N) (m : list (N * A)) (d : A) : A :=
+  match m with
+  | [] => d
+  | (k', v) :: r => if k =? k' then v else lookup_or k r d
+  end.
+Definition is_alpha (c : N) : bool := ((65 <=? c) && (c <=? 90)) || ((97 <=? c) && (c <=? 122)).
+Fixpoint cols_chk (wt : list (N * N)) (esc : bool) (s : text) : N :=
+  match s with
+  | [] => 0
+  | c :: r => if esc then cols_chk wt (negb (is_alpha c)) r
+              else if c =? 27 then cols_chk wt true r
+              else lookup_or c wt 1 + cols_chk wt false r
+  end.
+Definition chk_env (W : N) (wt : list (N * N)) (nums : list (N * text)) : env :=
+  mkenv (cols_chk wt false) (fun _ => W) (fun _ id _ => lookup_or id nums []) (fun _ n => (0, None, n)).
+
+(* terminal width, width table, numeric-key table, a history, what was observed after each operation *)
+Definition c16_check (c : N * list (N * N) * list (N * text) * list op * list out) : bool :=
+  let '(W, wt, nums, ops, obs) := c in
+  list_eqb out_eqb (snd (run (chk_env W wt nums) bar_init ops)) obs.
